@@ -71,6 +71,8 @@ fn lane_main(a: &[String]) {
         result: LaneResult::default(),
         strict: false,
         only_sub,
+        fuzz_bytes: None,
+        fuzz_out: None,
     };
     let t0 = Instant::now();
     props::run(&prop, &mut ctx);
